@@ -355,6 +355,7 @@ pub fn compress_sequences(
     set_raw(&c, sys::ZSTD_cParameter::ZSTD_c_experimentalParam11, 1)?; // explicit block delimiters
     set_raw(&c, sys::ZSTD_cParameter::ZSTD_c_experimentalParam12, validate as i32)?;
     set_raw(&c, sys::ZSTD_cParameter::ZSTD_c_windowLog, window_log as i32)?;
+    set_raw(&c, sys::ZSTD_cParameter::ZSTD_c_minMatch, 3)?;
     set_raw(&c, sys::ZSTD_cParameter::ZSTD_c_checksumFlag, checksum as i32)?;
     let mut seqs: Vec<sys::ZSTD_Sequence> = vec![];
     for (block_len, bs) in blocks {
